@@ -147,7 +147,7 @@ func runC06(e *Env) {
 		if c == nil || len(obs) < c.Min || len(obs) > c.Max {
 			return
 		}
-		o = c.Build(e, obs)
+		o = c.Apply(e, obs)
 	} else {
 		o, srcs = e.Pipeline()
 	}
